@@ -17,13 +17,26 @@ type Func struct {
 	Info *types.Info
 	Decl *ast.FuncDecl
 	G    *cfg.CFG
+	// caseTag maps a case expression of a tag switch to the switch's tag: go/cfg
+	// branches on the bare case expression ("one half of the tag==cond condition").
+	caseTag map[ast.Expr]ast.Expr
 }
 
 // NoReturn names functions that never return.
 var NoReturn = map[string]bool{"os.Exit": true, "log.Fatal": true, "log.Fatalf": true, "log.Fatalln": true, "runtime.Goexit": true}
 
 func New(info *types.Info, decl *ast.FuncDecl) *Func {
-	f := &Func{Info: info, Decl: decl}
+	f := &Func{Info: info, Decl: decl, caseTag: map[ast.Expr]ast.Expr{}}
+	ast.Inspect(decl.Body, func(n ast.Node) bool {
+		if sw, ok := n.(*ast.SwitchStmt); ok && sw.Tag != nil {
+			for _, cc := range sw.Body.List {
+				for _, e := range cc.(*ast.CaseClause).List {
+					f.caseTag[e] = sw.Tag
+				}
+			}
+		}
+		return true
+	})
 	f.G = cfg.New(decl.Body, func(c *ast.CallExpr) bool {
 		if id, ok := ast.Unparen(c.Fun).(*ast.Ident); ok {
 			if b, ok := info.Uses[id].(*types.Builtin); ok && b.Name() == "panic" {
@@ -187,7 +200,7 @@ func (f *Func) Explore(block, index int, cuts Cuts) *Result {
 		canT, canF := true, true
 		if len(blk.Succs) == 2 && cuts.Decide != nil && len(blk.Nodes) > 0 {
 			if cond, ok := blk.Nodes[len(blk.Nodes)-1].(ast.Expr); ok {
-				canT, canF = cuts.Decide(cond)
+				canT, canF = cuts.Decide(f.Cond(cond))
 			}
 		}
 		for si, s := range blk.Succs {
@@ -274,4 +287,13 @@ func (f *Func) ErrVarOf(call *ast.CallExpr) *types.Var {
 		return false
 	})
 	return found
+}
+
+// Cond returns the condition a two-way branch on e really tests: e itself, or
+// tag == e when e is a case expression of a tag switch.
+func (f *Func) Cond(e ast.Expr) ast.Expr {
+	if tag, ok := f.caseTag[e]; ok {
+		return &ast.BinaryExpr{X: tag, Op: token.EQL, Y: e}
+	}
+	return e
 }
